@@ -89,7 +89,10 @@ pub fn main(args: &[String]) -> i32 {
 			continue
 		}
 		crate::util::watch_begin(&out, &[20, case_no]);
-		let ncols = rng.range(1, 3) as usize;
+		// boundary family (1 case in 25): ONE counted column whose counts add up to a number of insertions at or next to a
+		// multiple of the migration's batch size (COMMIT_SIZE = 10240 insertions per commit, counted over the whole run)
+		let boundary: Option<u64> = if rng.chance(1, 25) { Some(*rng.pick(&[10239u64, 10240, 10241, 10242, 20480, 20481, 20482, 20483])) } else { None };
+		let ncols = if boundary.is_some() { 1 } else { rng.range(1, 3) as usize };
 		let mut src: Vec<Flags> = Vec::new();
 		let mut dst: Vec<Flags> = Vec::new();
 		let mut forced: Vec<bool> = Vec::new();
@@ -104,12 +107,22 @@ pub fn main(args: &[String]) -> i32 {
 				let drc = rng.chance(1, 2);
 				Flags { preimage: drc || rng.chance(1, 3), rc: drc, lz4: rng.chance(1, 2), uniform }
 			};
-			forced.push(rng.chance(1, 3));
+			let (s, d) = if boundary.is_some() {
+				let f = Flags { preimage: true, rc: true, lz4: false, uniform };
+				(f.clone(), f)
+			} else {
+				(s, d)
+			};
+			// (an unchanged column is copied as files unless the migration is forced)
+			forced.push(boundary.is_some() || rng.chance(1, 3));
 			src.push(s);
 			dst.push(d);
 		}
 		let overwrite = rng.chance(1, 4);
-		let nkeys = rng.range(2, 12) as usize;
+		let nkeys = if boundary.is_some() { rng.range(8, 12) as usize } else { rng.range(2, 12) as usize };
+		if let Some(t) = boundary {
+			*dist.entry(format!("boundary-total-insertions-{t}")).or_insert(0) += 1;
+		}
 		let salt_zero = rng.chance(1, 3);
 		let salt: [u8; 32] = {
 			let b = rng.bytes(32);
@@ -134,7 +147,7 @@ pub fn main(args: &[String]) -> i32 {
 			for c in 0..ncols {
 				let mut col = Vec::new();
 				for k in 0..nkeys {
-					let fate = rng.below(10);
+					let fate = if boundary.is_some() { 0 } else { rng.below(10) };
 					let present = fate < 6;
 					let gone = fate >= 6 && fate < 9;
 					let len = match rng.below(8) {
@@ -146,7 +159,13 @@ pub fn main(args: &[String]) -> i32 {
 					// counted columns: value iteration identifies a key by its value bytes, keep them distinct
 					let len = if src[c].rc || dst[c].rc { std::cmp::max(len, 8) } else { len };
 					let vtok = ((((c as u64) << 8 | k as u64) * 2 + rng.below(2) + 2) << 32) | len;
-					let cnt = if src[c].rc { rng.range(1, 4) } else { 1 };
+					let cnt = match boundary {
+						// the counts of the column add up to the chosen total
+						Some(t) => t / nkeys as u64 + if k == 0 { t % nkeys as u64 } else { 0 },
+						None => if src[c].rc { rng.range(1, 4) } else { 1 },
+					};
+					let len = if boundary.is_some() { 8 + (len % 200) } else { len };
+					let vtok = if boundary.is_some() { (vtok >> 32 << 32) | len } else { vtok };
 					if present || gone {
 						let key = key_bytes(c, k, src[c].uniform, tag);
 						let mut tx = vec![(c as u8, Operation::Set(key.clone(), value_bytes(vtok)))];
